@@ -1,0 +1,16 @@
+//go:build verif
+
+package hamt
+
+// Verification hooks (build tag `verif` only): expose the unexported hash-bit reader so that it can be
+// swept exhaustively over (offset, width) against the formal model. Not part of the public API.
+
+// VerifNext runs (&hashBits{b: hash, consumed: consumed}).Next(i) and returns the value and the new offset.
+func VerifNext(hash []byte, consumed, i int) (int, int, error) {
+	hb := &hashBits{b: hash, consumed: consumed}
+	v, err := hb.Next(i)
+	return v, hb.consumed, err
+}
+
+// VerifMaximumHamtWidth returns the unexported maximumHamtWidth constant.
+func VerifMaximumHamtWidth() int { return maximumHamtWidth }
